@@ -115,13 +115,14 @@ def canonical(iindex, dense, common):
     return iindex(entries, _val(common), tuple(int(s) for s in dense.shape))
 
 
-def wellformed(idx):
-    """steering only: is this object still inside the contract's pre-conditions?"""
+def wellformed(idx, allow_empty=False):
+    """steering only: is this object still inside the contract's pre-conditions? allow_empty: an entry without rows is
+    tolerated (it leaves the dense array the index stands for well defined, so the history can go on being judged)"""
     try:
         nd = len(idx.shape)
         seen = {}
         for k, rows in dict.items(idx):
-            if len(k) != nd or k[0] == idx.common or len(rows) == 0:
+            if len(k) != nd or k[0] == idx.common or (len(rows) == 0 and not allow_empty):
                 return False
             r = np.asarray(rows)
             if r.dtype != np.uint32 or r.ndim != 1:
